@@ -374,7 +374,20 @@ func (e *Engine) call(fr *Frame, st *State, reach Term, site ssa.Instruction, c 
 			e.oblige("lock.held", "lock.phase@"+label, "configuration-phase function "+id+" (initialises fields declared immutable) is called from a function that is not in the configuration phase", reach, False, nil)
 		}
 		if fc.UnboundedAlloc && (e.P.allocChecks[e.FuncID] || e.allocAll) {
-			e.safety("alloc", "call."+labelName(id), reach, False)
+			// a contract may state why this call is bounded here (note bounded_call <Name>: <reason>); the reason is
+			// an assumption and is listed in the evidence
+			exempt := false
+			if e.FC != nil {
+				for _, n := range e.FC.Notes {
+					if strings.HasPrefix(n, "bounded_call "+labelName(id)+":") {
+						exempt = true
+						e.used["ASSUMED bounded allocation in "+e.FuncID+": "+strings.TrimPrefix(n, "bounded_call ")] = true
+					}
+				}
+			}
+			if !exempt {
+				e.safety("alloc", "call."+labelName(id), reach, False)
+			}
 		}
 		names := e.P.paramNames(fc, callee, c, len(args))
 		res := e.applyContract(fr, st, reach, fc, id, label, names, args, resType)
